@@ -25,6 +25,7 @@ static int w_variants(int be, int *out)
 {
     if (be == EC_BACKEND_LIBERASURECODE_RS_VAND) { out[0] = WV_UNSET; out[1] = 8; out[2] = 32; out[3] = 64; return 4; }
     if (be == EC_BACKEND_FLAT_XOR_HD) { out[0] = 8; out[1] = 16; out[2] = 64; return 3; }
+    if (be == EC_BACKEND_NULL) { out[0] = 8; out[1] = 16; return 2; }      /* the null back end validates w (8, 16, 32) but sizes everything by 32 */
     return 0;
 }
 static const char *be_name(int be)
